@@ -330,7 +330,7 @@ def handle : Handler := fun input impl =>
         | some (.fail k r) => s!"?p{k}:{mainStr r}"
         | none => "running"
       let wait := if ps.all (·.done) then "ok" else "hang"
-      let head := s!"res={res} canc={if o.canc then 1 else 0} lat={o.lat} wait={wait} leak=0 eng={listStr o.eng} engc={o.engc} sup={o.sup}"
+      let head := s!"res={res} canc={if o.canc then 1 else 0} lat={o.lat} wait={wait} busy={if wait == "ok" then 0 else o.busy} leak=0 eng={listStr o.eng} engc={o.engc} sup={o.sup}"
       let head := match o.blk with
         | some b => head ++ s!" blk={b}"
         | none => head
